@@ -136,7 +136,7 @@ def defects(draw, design):
     if r["fld"] or r["sl"] is not None:
       tgt = R(n)                                    # existing part, new whole
       if t[0] == "s":
-        nn = n.replace("[", "_").replace("]", "")
+        nn = n.replace("[", "_").replace("]", "").replace(".", "_")
         d["raw_groups"].append(blk([f"s.{n} @= s.{nn}_src"]))
         d["raw_decl"].append(f"s.{nn}_src = Wire( {_tname(design, t)} )")
       else:
